@@ -307,13 +307,24 @@ def main():
                 if r['status'] == 'unknown' and r['stable'] in base_names:
                     retry.append((o2['target'], o2['mode'], r['name']))
         if retry:
-            jobs3 = []
+            # few at a time: the first pass ran with every core busy, which is what made these time out.  One instance
+            # per obligation family first; the other instances of a family only if that one is discharged (a family
+            # with one instance that still fails is a violation already)
+            fam = {}
             for (t, m, nm) in retry:
-                jobs3.append((t, m, timeout * 4, a.tier, nm))
-            # few at a time: the first pass ran with every core busy, which is what made these time out
+                fam.setdefault(stable(nm), []).append((t, m, timeout * 3, a.tier, nm))
+            wave1 = [v[0] for v in fam.values()]
             outs3 = []
-            with ctx.Pool(4) as pool3:
-                outs3 = pool3.map(phase3, jobs3[:60], chunksize=1)
+            with ctx.Pool(6) as pool3:
+                outs3 = pool3.map(phase3, wave1[:60], chunksize=1)
+                okfam = set()
+                for o3 in outs3:
+                    for r in o3['results']:
+                        if r['status'] == 'unsat':
+                            okfam.add(r['stable'])
+                wave2 = [j for k, v in fam.items() if k in okfam for j in v[1:]]
+                if wave2:
+                    outs3 += pool3.map(phase3, wave2[:80], chunksize=1)
             fixed = {}
             for o3 in outs3:
                 for r in o3['results']:
